@@ -100,6 +100,8 @@ class Sim:
         self.max_total_events = 6 * 10 ** 6
         self.eager_wake = 0.0        # probability that a put() executed by the driver (receive context) runs the woken thread immediately
         self.eager_switches = 0
+        self.lock_waits = 0          # acquisitions of a virtual lock that found it taken
+        self.drive_depth = 0         # > 0 while the driver waits for a lock inside a handler / application call
         self.reentrant_depth = 0     # > 0 while a frame is being handled re-entrantly inside a send call (no injected hold may start there)
         self.eager_depth = 0         # > 0 while a handler of the driver is suspended in favour of a woken thread
 
@@ -140,6 +142,19 @@ class Sim:
             self.now = until
         self.events_run += n
         return n
+
+    def drive_until(self, pred, timeout=None, limit=30.0):
+        """driver context blocks (on a lock): keep running events until pred() holds; False on time-out / nothing left to run"""
+        t_end = self.now + (limit if timeout is None else min(timeout, limit))
+        self.drive_depth += 1
+        try:
+            while not pred():
+                if not self.heap or self.heap[0][0] > t_end:
+                    return False
+                self.run(max_events=1)
+            return True
+        finally:
+            self.drive_depth -= 1
 
     # ---- baton ----------------------------------------------------------------------
     def _resume(self, st, token):
@@ -415,6 +430,103 @@ class VEvent:
             if st in self.waiters:
                 self.waiters.remove(st)
         return self._flag
+
+
+class VLock:
+    """threading.Lock / RLock look-alike for the code under test (substituted per module, see fixup_modules): a controlled thread that
+    finds it taken parks in virtual time; the driver (receive / application context) lets the simulation run until the holder releases it."""
+    reentrant = False
+
+    def __init__(self):
+        self.owner = None
+        self.count = 0
+        self.waiters = []
+        self.contended = 0
+
+    def locked(self):
+        return self.owner is not None
+
+    def acquire(self, blocking=True, timeout=-1):
+        sim = CUR
+        me = threading.current_thread()
+        if self.owner is not None and not (self.reentrant and self.owner is me):
+            if not blocking:
+                return False
+            if sim is None:
+                raise HarnessError('contended lock outside a simulation')
+            self.contended += 1
+            sim.lock_waits += 1
+            st = sim.states.get(me)
+            if st is not None and sim.current is st:
+                t_end = None if timeout is None or timeout < 0 else sim.now + timeout
+                while self.owner is not None:
+                    if t_end is not None and sim.now >= t_end:
+                        return False
+                    self.waiters.append(st)
+                    try:
+                        sim.block_current(t_end, self)
+                    finally:
+                        if st in self.waiters:
+                            self.waiters.remove(st)
+            else:
+                # driver context: the holder is a parked controlled thread; run the simulation until it lets go
+                ok = sim.drive_until(lambda: self.owner is None, None if timeout is None or timeout < 0 else timeout)
+                if not ok:
+                    if timeout is not None and timeout >= 0:
+                        return False
+                    raise Runaway('deadlock: the receive/application context waited 30 s of virtual time for a lock held by %s'
+                                  % getattr(self.owner, 'name', self.owner))
+        self.owner = me
+        self.count += 1
+        return True
+
+    def release(self):
+        if self.owner is None:
+            raise RuntimeError('release unlocked lock')
+        self.count -= 1
+        if self.count <= 0:
+            self.count = 0
+            self.owner = None
+            if self.waiters and CUR is not None:
+                CUR.wake(self.waiters.pop(0))
+
+    __enter__ = acquire
+
+    def __exit__(self, *a):
+        self.release()
+
+
+class VRLock(VLock):
+    reentrant = True
+
+
+class ThreadingProxy:
+    """stands in for the `threading` module inside the modules of the code under test"""
+    Lock = VLock
+    RLock = VRLock
+
+    def __getattr__(self, name):
+        return getattr(threading, name)
+
+
+_threading_proxy = ThreadingProxy()
+_real_lock_factories = (threading.Lock, threading.RLock)
+
+
+def fixup_modules(prefix='j1939'):
+    """after the code under test has been imported: its modules see virtual locks (module global `threading` -> proxy; names bound with
+    `from threading import Lock` fixed up by identity) -- only they do, the interpreter's own locks stay real"""
+    for name, mod in list(sys.modules.items()):
+        if not (name == prefix or name.startswith(prefix + '.')):
+            continue
+        d = getattr(mod, '__dict__', {})
+        for k, v in list(d.items()):
+            if v is threading:
+                d[k] = _threading_proxy
+            elif v is _real_lock_factories[0]:
+                d[k] = VLock
+            elif v is _real_lock_factories[1]:
+                d[k] = VRLock
 
 
 # ---- process-wide substitution -----------------------------------------------------------
